@@ -443,7 +443,9 @@ pub fn run(ctx: &Ctx) -> Report {
         }
         let text = format!("position startpos moves {}", game.moves_uci().join(" "));
         let cmds = vec![
-            Cmd { text: "position startpos moves e2e4".into(), accept: Some({ let mut g = Game::new(Pos::startpos()); let m = g.cur.find_legal("e2e4").unwrap(); g.play(m); g }), is_position: true, classes: vec!["plain"] },
+            // White to move before, Black to move after the long game: a command that is refused or
+            // cut short leaves a position whose moves are not legal in the right one (decisive probe)
+            Cmd { text: "position startpos".into(), accept: Some(Game::new(Pos::startpos())), is_position: true, classes: vec!["plain"] },
             Cmd { text, accept: Some(game), is_position: true, classes: vec!["very-long-game"] },
         ];
         rep.class("layer:process");
